@@ -90,10 +90,14 @@ func (c *FnCtx) ghostIntrinsic(fr *Frame, st *State, fn *ssa.Function, args []*T
 	case "verifTokDepth": // number of currently open elements as seen by Decoder.Token
 		return []*Term{c.gget(st, "G:xddepth", args[0])}, true
 	case "verifFresh": // object allocated during this call
-		if fr == nil || c.entryWM == nil {
-			return []*Term{ts.Bool(true)}, true
+		base := c.freshBase
+		if base == nil {
+			base = c.entryWM
 		}
-		return []*Term{ts.Ge(args[0], c.entryWM)}, true
+		if base == nil {
+			unsupported("verifFresh outside a postcondition")
+		}
+		return []*Term{ts.Ge(args[0], base)}, true
 	case "verifRangeCount": // entries delivered so far by the map-range loop with the given ordinal
 		k, ok := args[0].IntLit()
 		if !ok || c.curFrame == nil || c.curFrame.iterByLoop[int(k)] == nil {
@@ -124,6 +128,20 @@ func (c *FnCtx) toLower(st *State, s *Term) *Term {
 		return ts.Str(strings.ToLower(l))
 	}
 	r := ts.UF("strings.ToLower", SString, s)
+	// exact characterisation for the ASCII literals the code compares against (no letter of these has a
+	// non-ASCII upper-case form): ToLower(s) == L  <=>  s is an ASCII case variant of L
+	for _, lit := range []string{"nan", "inf", "-inf", "+inf", "infinity", "+infinity", "-infinity"} {
+		conds := []*Term{ts.Eq(ts.Len(s), ts.Int(int64(len(lit))))}
+		for i := 0; i < len(lit); i++ {
+			ch := ts.App("str.at", SString, s, ts.Int(int64(i)))
+			alts := []*Term{ts.Eq(ch, ts.Str(lit[i:i+1]))}
+			if lit[i] >= 'a' && lit[i] <= 'z' {
+				alts = append(alts, ts.Eq(ch, ts.Str(strings.ToUpper(lit[i:i+1]))))
+			}
+			conds = append(conds, ts.Or(alts...))
+		}
+		c.addFactT(st, r, ts.Eq(ts.Eq(r, ts.Str(lit)), ts.And(conds...)))
+	}
 	c.addFactT(st, r, ts.Eq(ts.UF("strings.ToLower", SString, r), r))
 	c.addFactT(st, r, ts.Eq(ts.Eq(s, ts.Str("")), ts.Eq(r, ts.Str(""))))
 	return r
@@ -272,16 +290,43 @@ func (c *FnCtx) model(fr *Frame, st *State, x *ssa.Call, name string, args []*Te
 		return []*Term{r}
 	// ---------------- strconv ----------------
 	case "strconv.ParseInt", "strconv.ParseUint":
-		use(name + ": err==nil iff the text is a numeral in range; value within the requested bit size")
-		ok := ts.UF(name+"!ok", SBool, args...)
-		v := ts.UF(name+"!val", SInt, args...)
-		e := ts.Fresh("err!parse", SVal)
-		c.addFact(st, ts.Eq(tc.IsNilVal(e), ok))
-		c.addFact(st, ts.Or(tc.IsNilVal(e), ts.App("(_ is VBox)", SBool, e)))
+		base, isB := args[1].IntLit()
 		bits := int64(64)
 		if b, isLit := args[2].IntLit(); isLit && b > 0 {
 			bits = b
 		}
+		e := ts.Fresh("err!parse", SVal)
+		c.addFact(st, ts.Or(tc.IsNilVal(e), ts.App("(_ is VBox)", SBool, e)))
+		if isB && base == 10 {
+			use(name + "(s,10,bits): exact — optional sign (ParseInt only), non-empty decimal digits, value within the bit size; value = the numeral")
+			sarg := args[0]
+			var ok, v *Term
+			if name == "strconv.ParseInt" {
+				neg := ts.App("str.prefixof", SBool, ts.Str("-"), sarg)
+				pos := ts.App("str.prefixof", SBool, ts.Str("+"), sarg)
+				d := ts.Ite(ts.Or(neg, pos), ts.Extract(sarg, ts.Int(1), ts.Sub(ts.Len(sarg), ts.Int(1))), sarg)
+				n := ts.App("str.to_int", SInt, d)
+				lim := ts.BigInt(pow2(bits))
+				ok = ts.And(ts.Ge(n, ts.Int(0)), ts.Ite(neg, ts.Le(n, lim), ts.Lt(n, lim)))
+				v = ts.Ite(ok, ts.Ite(neg, ts.Sub(ts.Int(0), n), n), ts.UF(name+"!errval", SInt, args...))
+				c.addFact(st, ts.And(ts.Le(ts.BigInt("-"+pow2(bits)), v), ts.Lt(v, lim)))
+			} else {
+				n := ts.App("str.to_int", SInt, sarg)
+				max := "18446744073709551615"
+				if bits == 32 {
+					max = "4294967295"
+				}
+				ok = ts.And(ts.Ge(n, ts.Int(0)), ts.Le(n, ts.BigInt(max)))
+				v = ts.Ite(ok, n, ts.UF(name+"!errval", SInt, args...))
+				c.addFact(st, ts.And(ts.Le(ts.Int(0), v), ts.Le(v, ts.BigInt(max))))
+			}
+			c.addFact(st, ts.Eq(tc.IsNilVal(e), ok))
+			return []*Term{v, e}
+		}
+		use(name + ": err==nil iff the text is a numeral in range; value within the requested bit size")
+		ok := ts.UF(name+"!ok", SBool, args...)
+		v := ts.UF(name+"!val", SInt, args...)
+		c.addFact(st, ts.Eq(tc.IsNilVal(e), ok))
 		if name == "strconv.ParseInt" {
 			c.addFact(st, ts.And(ts.Le(ts.BigInt("-"+pow2(bits)), v), ts.Lt(v, ts.BigInt(pow2(bits)))))
 		} else {
@@ -289,6 +334,27 @@ func (c *FnCtx) model(fr *Frame, st *State, x *ssa.Call, name string, args []*Te
 		}
 		c.addFact(st, ts.Implies(ok, ts.Gt(ts.Len(args[0]), ts.Int(0))))
 		return []*Term{v, e}
+	case "strconv.Atoi":
+		use("strconv.Atoi(s) = ParseInt(s,10,0): exact for 64-bit int")
+		sarg := args[0]
+		neg := ts.App("str.prefixof", SBool, ts.Str("-"), sarg)
+		pos := ts.App("str.prefixof", SBool, ts.Str("+"), sarg)
+		d := ts.Ite(ts.Or(neg, pos), ts.Extract(sarg, ts.Int(1), ts.Sub(ts.Len(sarg), ts.Int(1))), sarg)
+		n := ts.App("str.to_int", SInt, d)
+		lim := ts.BigInt(pow2(64))
+		ok := ts.And(ts.Ge(n, ts.Int(0)), ts.Ite(neg, ts.Le(n, lim), ts.Lt(n, lim)))
+		v := ts.Ite(ok, ts.Ite(neg, ts.Sub(ts.Int(0), n), n), ts.UF(name+"!errval", SInt, args...))
+		c.addFact(st, ts.And(ts.Le(ts.BigInt("-"+pow2(64)), v), ts.Lt(v, lim)))
+		e := ts.Fresh("err!parse", SVal)
+		c.addFact(st, ts.Or(tc.IsNilVal(e), ts.App("(_ is VBox)", SBool, e)))
+		c.addFact(st, ts.Eq(tc.IsNilVal(e), ok))
+		return []*Term{v, e}
+	case "math.IsNaN":
+		use("math.IsNaN / math.IsInf: uninterpreted predicates on float64")
+		return []*Term{ts.UF("f64!isnan", SBool, args[0])}
+	case "math.IsInf":
+		use("math.IsNaN / math.IsInf: uninterpreted predicates on float64")
+		return []*Term{ts.UF("f64!isinf", SBool, args[0])}
 	case "strconv.ParseFloat":
 		use("strconv.ParseFloat: err==nil iff the text is a float literal (including the special spellings of NaN/Inf); value uninterpreted")
 		ok := ts.UF(name+"!ok", SBool, args[0])
@@ -297,6 +363,18 @@ func (c *FnCtx) model(fr *Frame, st *State, x *ssa.Call, name string, args []*Te
 		c.addFact(st, ts.Eq(tc.IsNilVal(e), ok))
 		c.addFact(st, ts.Or(tc.IsNilVal(e), ts.App("(_ is VBox)", SBool, e)))
 		c.addFact(st, ts.Implies(ok, ts.Gt(ts.Len(args[0]), ts.Int(0))))
+		// special values: exactly the spellings [+-]?inf, [+-]?infinity and nan (ASCII case-insensitive) parse to
+		// an infinity / a NaN without error (overflowing numerals return ErrRange)
+		use("strconv.ParseFloat returns err==nil with an infinite or NaN value exactly for the spellings [+-]?inf, [+-]?infinity, nan (case-insensitive)")
+		low := c.toLower(st, args[0])
+		var infs []*Term
+		for _, sp := range []string{"inf", "+inf", "-inf", "infinity", "+infinity", "-infinity"} {
+			infs = append(infs, ts.Eq(low, ts.Str(sp)))
+		}
+		isInfSp := ts.Or(infs...)
+		isNanSp := ts.Eq(low, ts.Str("nan"))
+		c.addFactT(st, v, ts.Eq(ts.And(ok, ts.UF("f64!isinf", SBool, v)), isInfSp))
+		c.addFactT(st, v, ts.Eq(ts.And(ok, ts.UF("f64!isnan", SBool, v)), isNanSp))
 		return []*Term{v, e}
 	case "strconv.ParseBool":
 		use("strconv.ParseBool: accepts exactly 1,t,T,TRUE,true,True,0,f,F,FALSE,false,False")
